@@ -4,6 +4,7 @@ import (
 	"fmt"
 	"net"
 	"strconv"
+	"strings"
 	"sync"
 	"time"
 
@@ -363,47 +364,47 @@ func timingScenarios(c *corr.Ctx) []timingScenario {
 	return out
 }
 
-func runTiming(c *corr.Ctx) {
-	scs := timingScenarios(c)
-	results := make([]timingResult, len(scs))
-	sem := make(chan struct{}, 12)
-	var wg sync.WaitGroup
-	for i, sc := range scs {
-		wg.Add(1)
-		go func(i int, sc timingScenario) {
-			defer wg.Done()
-			sem <- struct{}{}
-			defer func() { <-sem }()
-			results[i] = runTimingScenario(sc)
-			if results[i].viol != "" {
-				// real timers under load: a finding must reproduce
-				again := runTimingScenario(sc)
-				if again.viol == "" {
-					again.detail += " (first attempt: " + results[i].viol + ")"
-					again.retried = true
-				}
-				results[i] = again
-			}
-		}(i, sc)
-	}
-	wg.Wait()
-	for _, r := range results {
-		c.CountOnly("timing:"+r.sc.name, true)
-		if r.retried {
-			c.Dist("timing:passed-on-second-attempt")
-		}
-		switch {
-		case r.viol != "":
-			c.Dist("timing:violation")
-			c.Violate(corr.Violation{Property: prop, Clause: "live sessions are never expired; silent ones are closed within timeout + one check period",
-				Key: r.key, Where: r.sc.name, Input: r.sc.name, Detail: r.viol})
-		case r.sc.expectAlive():
-			c.Dist("timing:live-kept")
-		default:
-			c.Dist("timing:silent-closed-in-time")
-		}
-		if r.detail != "" {
-			c.Note("timing " + r.sc.name + ": " + r.detail)
+func timingScenarioByName(c *corr.Ctx, name string) (timingScenario, bool) {
+	for _, sc := range timingScenarios(c) {
+		if sc.name == name {
+			return sc, true
 		}
 	}
+	return timingScenario{}, false
+}
+
+// timingCase runs one real-timer scenario (twice if the first attempt fails: a finding must
+// reproduce on a loaded machine) and reports it as a property-oracle-only case.
+func timingCase(sc timingScenario) caseResult {
+	res := caseResult{name: "timing:" + sc.name, dist: map[string]int{}, countOnly: true, nontrivial: true}
+	r := runTimingScenario(sc)
+	if r.viol != "" {
+		again := runTimingScenario(sc)
+		if again.viol == "" {
+			again.detail += " (first attempt: " + r.viol + ")"
+			res.dist["timing:passed-on-second-attempt"]++
+		}
+		r = again
+	}
+	switch {
+	case r.viol != "":
+		res.dist["timing:violation"]++
+		key := "sess-silent-not-closed"
+		if strings.HasPrefix(r.key, "live-") {
+			key = "sess-live-expired"
+		} else if r.key == "timing-setup" {
+			key = "timing-setup"
+		}
+		res.viol = append(res.viol, corr.Violation{Property: prop,
+			Clause: "live sessions are never expired; silent ones are closed within timeout + one check period",
+			Key:    key, Where: sc.name, Input: &Case{Timing: sc.name}, Detail: r.viol})
+	case sc.expectAlive():
+		res.dist["timing:live-kept"]++
+	default:
+		res.dist["timing:silent-closed-in-time"]++
+	}
+	if r.detail != "" {
+		res.notes = append(res.notes, "timing "+sc.name+": "+r.detail)
+	}
+	return res
 }
